@@ -97,7 +97,7 @@ async def _run_once(sim: Sim, spec: dict[str, Any], lockstep: bool) -> list[tupl
         await asyncio.sleep(0.01)
         for k in range(tstar, end):
             for i in range(n):
-                await txs[i].send(fc.make_sample(sim, k, value(i, k)))
+                await txs[i].send(fc.make_sample(sim, k, value(i, k), i))
             await asyncio.sleep(0.5)
     else:
         nxt = list(starts)
@@ -132,7 +132,7 @@ async def _run_once(sim: Sim, spec: dict[str, Any], lockstep: bool) -> list[tupl
             i = cand[ch.draw("which", len(cand))]
             sim.ev("deliver", i, nxt[i])
             sim.note(f"deliver stream {i} T={nxt[i]}")
-            await txs[i].send(fc.make_sample(sim, nxt[i], value(i, nxt[i])))
+            await txs[i].send(fc.make_sample(sim, nxt[i], value(i, nxt[i]), i))
             nxt[i] += 1
             sent += 1
             started = [nxt[j] for j in range(n)]
@@ -211,6 +211,7 @@ def scenario(sim: Sim) -> None:
                 miss.add((i, max(starts) + ch.draw("missing_round", spec["rounds"])))
         spec["missing"] = miss
         sim.probe("missing_input_values")
+    fc.draw_stream_offsets(sim, list(range(n)))
     cost = ch.weighted("cost_mode", [2, 1, 2])
     cost_seed = ch.draw("cost_seed", 1 << 16) if cost == 2 else 0
     sim.config.update(kind=kind, n=n, starts=starts, rounds=spec["rounds"], cap=spec["cap"],
